@@ -174,12 +174,70 @@ def clause4(P, res):
         res.unclassified(rid, "lookup-sites", "expected the per-actor rule lookup in process_event, found none: the routing code changed shape", where="rules/c19.py")
 
 
+def clause5(P, res):
+    import mir
+    rid = "C19-5"
+    res.rule(rid, "the most specific logger is chosen among the loggers whose name is a module-path prefix of the target: in find_most_specific_rule the `::`-boundary test "
+                  "(target_matches_prefix) is applied to every rule before the longest one is selected — as an Iterator::filter upstream of the max/max_by_key, or, in loop "
+                  "form, on the edge that dominates every update of the candidate. Selecting the longest *textual* prefix first and testing the boundary afterwards lets "
+                  "`svc::db` shadow `svc` for the target `svc::db_pool`: the lookup returns nothing and a non-additive ancestor stops gating")
+    bs = [b for b in bodies(P) if b.name == "find_most_specific_rule" and b.kind == "method"]
+    if not bs:
+        res.unclassified(rid, "find_most_specific_rule", "rule lookup not found", where="rules/c19.py")
+        return
+    for b in bs:
+        fam = [b] + [c for c in P.bodies.values() if c.root == b.id and c.id != b.id or c.parent == b.id]
+        # iterator-chain form
+        filt = None
+        for e in b.calls():
+            if e.method == "filter" and "iter::traits::iterator::Iterator" in e.callee and len(e.args) > 1:
+                cp = b.path_of_operand(e.args[1])
+                cb = P.body(cp[len("closure:"):]) if cp.startswith("closure:") else None
+                if cb is not None and any(x.method == "target_matches_prefix" for x in cb.calls()):
+                    filt = e
+        maxes = [e for e in b.calls() if e.method in ("max_by_key", "max_by", "max", "last", "fold", "reduce") and "iter::traits::iterator::Iterator" in e.callee]
+        if filt is not None and maxes and all(filt in mir.operand_sources(b, m.args[0])[0] for m in maxes):
+            res.holds(rid, b.id, f"boundary filter at {filt.loc} feeds the selection at {maxes[0].loc}", where=filt.loc)
+            continue
+        # loop form: every write of a candidate (a local that flows to the return value) is behind the true edge of the boundary test
+        tests = [x for x in b.calls() if x.method == "target_matches_prefix"]
+        edges = []
+        for blk in range(len(b.blocks)):
+            if b.is_cleanup(blk) or b.term(blk)["k"] != "switch":
+                continue
+            ss = b.switch_source(blk)
+            if ss and ss.get("kind") == "call" and ss["event"] in tests:
+                edges += b.edges_by_label(blk).get("false" if ss.get("neg") else "true", [])
+        ret_locals = set()
+        for x in b.events:
+            if x.kind == "assign" and x.data["p"][0] == 0:
+                rv = x.data["r"]
+                for o in [rv[k] for k in ("o", "a", "b") if isinstance(rv.get(k), dict)] + list(rv.get("ops", []) or []):
+                    evs, _, _ = mir.operand_sources(b, o)
+                    ret_locals |= {(y.data["p"][0] if y.kind == "assign" else y.data["d"][0]) for y in evs}
+            elif x.kind == "call" and x.data["d"][0] == 0:
+                for a in x.args:
+                    evs, _, _ = mir.operand_sources(b, a)
+                    ret_locals |= {(y.data["p"][0] if y.kind == "assign" else y.data["d"][0]) for y in evs}
+        cand = [x for x in b.events if x.kind == "assign" and x.data["p"][0] in ret_locals and b.locals[x.data["p"][0]].get("name") and x.data["r"]["k"] == "agg"
+                and x.data["r"].get("variant") == "Some"]
+        if edges and cand and all(b.edges_dominate(edges, c.pos) for c in cand):
+            res.holds(rid, b.id, "loop form: every candidate update is behind the boundary test", where=cand[0].loc)
+        elif filt is None and not edges:
+            res.violated(rid, b.id, "no rule is tested with target_matches_prefix before the longest one is selected: the boundary test (if any) runs on the already selected "
+                         "candidate, so a longer logger name that is only a textual prefix of the target shadows the real ancestor", where=f"{b.file}:{b.line}")
+        else:
+            res.violated(rid, b.id, "a candidate can be selected without having passed the `::`-boundary test (the test is not upstream of the selection on every path)",
+                         where=f"{b.file}:{b.line}")
+
+
 def run(P, ctx):
     res = Result("C19")
     res.extra["explanation"] = "Delivery-path, overflow-policy and shutdown-order shapes of fibre_logging's dispatch and writer code."
     clause1(P, res)
     clause2(P, res)
     clause4(P, res)
+    clause5(P, res)
     # clause3 (shutdown order) is NOT armed: on the pinned tree shutdown raises the stop flag before it closes the
     # channels and the writer's final drain stops at Empty, but the window in which a blocking send is accepted
     # and never written could not be demonstrated against the real code (it needs the writer to read the flag in
